@@ -426,10 +426,11 @@ pub fn build_join_accept_mhdr(key: &[u8; 16], mhdr: u8, devaddr: u32, dl_setting
 
 /// The decoded view of a received byte string, as the model consumes it (grammar in Driver/Mac.lean).
 /// `mic_hint`: the counter the frame was built with, if the caller knows it.
-pub fn view_of(bytes: &[u8], nwk: &[u8; 16], app: &[u8; 16], root: &[u8; 16], mic_hint: Option<u32>) -> String {
-    let r = crate::refcodec::ref_view(bytes, nwk, app, root, mic_hint);
+/// builder Y — `own`: the DevAddr of the receiving device's session (`None` = not looked at).
+pub fn view_of(bytes: &[u8], own: Option<u32>, nwk: &[u8; 16], app: &[u8; 16], root: &[u8; 16], mic_hint: Option<u32>) -> String {
+    let r = crate::refcodec::ref_view(bytes, own, nwk, app, root, mic_hint);
     if std::env::var("LV_VIEW_SELFTEST").is_ok() {
-        let o = view_of_impl(bytes, nwk, app, root, mic_hint);
+        let o = view_of_impl(bytes, own, nwk, app, root, mic_hint);
         if o != r {
             eprintln!("VIEW-MISMATCH {} impl={} ref={}", hex(bytes), o, r);
         }
@@ -438,7 +439,7 @@ pub fn view_of(bytes: &[u8], nwk: &[u8; 16], app: &[u8; 16], root: &[u8; 16], mi
 }
 
 /// The same view computed with the crate's own parser (self-test of the reference decoder only).
-pub fn view_of_impl(bytes: &[u8], nwk: &[u8; 16], app: &[u8; 16], root: &[u8; 16], mic_hint: Option<u32>) -> String {
+pub fn view_of_impl(bytes: &[u8], own: Option<u32>, nwk: &[u8; 16], app: &[u8; 16], root: &[u8; 16], mic_hint: Option<u32>) -> String {
     let mut copy = bytes.to_vec();
     if let Ok(enc) = EncryptedDataPayload::parse(&mut copy[..]) {
         if enc.is_uplink() {
@@ -450,8 +451,9 @@ pub fn view_of_impl(bytes: &[u8], nwk: &[u8; 16], app: &[u8; 16], root: &[u8; 16
         let len = bytes.len();
         let conf = enc.is_confirmed();
         let f16 = enc.fhdr().fcnt();
+        let mine = own.map_or(true, |a| enc.fhdr().dev_addr() == DevAddr::from_value(a));
         let mic = match mic_hint {
-            Some(n) if enc.validate_mic(&nwk_c, n) => Some(n),
+            Some(n) if mine && enc.validate_mic(&nwk_c, n) => Some(n),
             _ => None,
         };
         return match mic {
